@@ -716,6 +716,36 @@ def check_globals(ctx, f):
            'global_simulator and global_derivative_buffer are assigned from the current interface unconditionally before odeint runs', '')
 
 
+def check_entry_leaves_no_state(ctx):
+    """An interface may be handed to py_simulate_model again and again: what one call stores in it must not decide a later call that
+    takes another branch.  Every state-setting call on the interface in py_simulate_model is therefore either made on every call
+    (top level of the function) or is one of the two the pinned code has always made conditionally (the grid step on a regular grid -
+    an irregular grid warns - and the preparation for a deterministic run, which the stochastic simulators do not read)."""
+    f = ctx.fn('simulator:py_simulate_model')
+    names = {a.arg for a in f.args.args}
+    iface = 'Interface' if 'Interface' in names else None
+    if iface is None:
+        raise AnalysisError('py_simulate_model: the Interface argument was not found')
+    ALLOWED_CONDITIONAL = {'py_set_dt', 'py_prep_deterministic_simulation'}
+    problems = []
+    n = 0
+    for c in ast.walk(f):
+        if isinstance(c, ast.Call) and isinstance(c.func, ast.Attribute) and src(c.func.value) == iface and \
+                (c.func.attr.startswith('py_set_') or c.func.attr.startswith('set_') or c.func.attr.startswith('py_prep')):
+            n += 1
+            cur, cond = c, None
+            while getattr(cur, '_parent', None) is not None and cur is not f:
+                if isinstance(cur._parent, (ast.If, ast.For, ast.While, ast.Try)):
+                    cond = cur._parent
+                cur = cur._parent
+            if cond is not None and c.func.attr not in ALLOWED_CONDITIONAL:
+                problems.append('`%s` (%s) is stored in the interface only when `%s`: a later call that takes the other branch runs with the leftover'
+                                % (src(c)[:60], ctx.loc('simulator', c), src(cond.test)[:60] if hasattr(cond, 'test') else type(cond).__name__))
+    ctx.call_sites += n
+    ctx.ob('R8.4-work-on-copies', 'py_simulate_model/interface-state', not problems, ctx.loc('simulator', f),
+           'what py_simulate_model stores in a (reusable) interface does not depend on the branch this call takes', '; '.join(problems[:2]))
+
+
 def check(ctx):
     prog = ctx.prog
     for m in ('types', 'types.pxd', 'simulator', 'simulator.pxd', 'random', 'lineage', 'lineage.pxd', 'inference'):
@@ -727,6 +757,7 @@ def check(ctx):
     check_initialize_once(ctx)
     f = check_copies(ctx)
     check_seed(ctx)
+    check_entry_leaves_no_state(ctx)
     check_globals(ctx, f)
     check_pure_evaluation(ctx)
     ctx.floor('R8.1-invalidate', 7)
